@@ -21,12 +21,21 @@ EXPLANATION = (
     "module belong together (pairs created in create_*_state, named by the fields of the returned record). R3 requires loss "
     "functions, policy-head methods and action samplers to have an empty effect set. R4 requires that the gradient is read at all and "
     "that no feasible normal path from the gradient computation to the exit avoids the update (path witness). Values the analysis "
-    "does not read (a transformed gradient, a module handed to unsummarised code, merged definitions) make the rule group undecided."
+    "does not read (a transformed gradient, a module handed to unsummarised code, merged definitions) make the rule group undecided. "
+    "R7 follows the gradient through leaf-wise tree maps: an identity is a copy, a switch between the leaf and zeros under one test for the whole tree is a "
+    "skipped update written as data (world witness: the test selects zeros), any other leaf function is undecided. R8 reads attribute stores in routines "
+    "that write modules: installing another written component - or nnx.merge(graphdef, nnx.state(X)) without copy, which keeps X's Variables - as a component "
+    "makes two components share parameters (unless the slot the reference came from is re-filled afterwards: moved, not shared); R5 reads such merges as the "
+    "identity of X. R9 follows the data arguments of the update routines backwards to slices `[:-r]` with r a remainder that no test of r guards (world r == 0: "
+    "empty slice, zero optimiser steps)."
 )
 TRUSTED = [
     "flax nnx: value_and_grad(f, argnums=k) differentiates w.r.t. the k-th positional argument; Optimizer.update(model, grads) changes exactly "
     "model and the optimizer state; nnx.update(m, s) changes exactly m; a module is changed in no other way (no raw .value stores - checked by a scan)",
     "distinct parameters denote distinct objects",
+    "flax nnx (0.11): nnx.state(m) / nnx.split(m) return m's own Variable objects and nnx.merge(graphdef, state) without copy=True builds the module around them "
+    "(checked at run time on the installed version: the merged module changes when m is updated; any jax.tree.map over the state makes new Variables)",
+    "Python slicing: x[:-0] is x[:0] (empty)",
 ]
 RULES = {
     "R1-grad-update-pairing": "at every value_and_grad/grad site the differentiated argument is the object passed as first argument to the update that consumes the gradient",
@@ -35,6 +44,14 @@ RULES = {
     "R4-does-update": "the gradient of every site is consumed by an update on every normal path through the loop body",
     "R6-stateful-objects-in-lax-carry": "no nnx Module / Optimizer is placed in the carry of jax.lax.fori_loop / while_loop / scan / cond: these primitives treat the operand as a pytree, "
                                         "so the body trains a functional copy and the caller's object is never updated (nnx.fori_loop / nnx.scan propagate the state)",
+    "R7-gradient-intact": "the value an update receives is the gradient that was computed: it is not switched leaf-wise between the gradient and zeros by a test that holds for "
+                          "the whole tree (`tree.map(lambda g: where(c, g, 0), grads)` is `if c: update` written as data - in the world where c selects zeros a non-zero "
+                          "gradient does not train the component, and the update that still runs advances the optimizer state)",
+    "R8-no-shared-storage": "no routine installs (attribute store) as a component of one of its objects another component that one of its updates writes, or a module built around "
+                            "that component's live parameters (`nnx.merge(graphdef, nnx.state(X))` without copy=True keeps X's Variable objects): the update of X would also "
+                            "change the component it was installed in",
+    "R9-batches-not-emptied": "data that reaches an update routine is not cut by a slice `[:-r]` whose r is a remainder `a % b` unless the statement is under a test of r: for r == 0 "
+                              "the slice is empty (Python reads `[:-0]` as `[:0]`), the routine gets no batch, makes no optimiser step and its trainee stays unchanged",
     "R5-distinct-components": "the components a training routine returns (networks, targets, fixed copies, optimizers) are pairwise distinct objects, component-wise: "
                               "if two of them shared a sub-module, updating one would change the other",
 }
@@ -151,20 +168,26 @@ def grad_sites(repo: Repo, fn, mi):
             tcall = n.func
         elif isinstance(n.func, ast.Name) and n.func.id in bound:
             tcall = bound[n.func.id]
+        tmi = mi  # the module the transform is written in (its names are resolved there)
+        if tcall is None and isinstance(n.func, (ast.Name, ast.Attribute)):
+            # `_loss_and_grad = nnx.value_and_grad(L, argnums=k)` bound once at module level (here or in the module it is imported from)
+            hit = _module_level_transform(repo, mi, fn, n.func)
+            if hit is not None:
+                tmi, tcall = hit
         if tcall is None:
             continue
-        kind = repo.resolve_expr(mi, tcall.func)
+        kind = repo.resolve_expr(tmi, tcall.func)
         kw = {k.arg: k.value for k in tcall.keywords}
         argnums = kw.get("argnums", tcall.args[1] if len(tcall.args) > 1 else ast.Constant(0))
         try:
-            an = ast.literal_eval(_literal_of(mi, fn, argnums))
+            an = ast.literal_eval(_literal_of(tmi, fn, argnums))
         except Exception:
             raise AnalysisError(f"{getattr(fn, '_qual', fn.name)}: non-literal argnums `{short(argnums)}` (unrecognised idiom)")
         if not (isinstance(an, int) and not isinstance(an, bool) and an >= 0) and not (isinstance(an, (tuple, list)) and all(isinstance(x, int) and not isinstance(x, bool) and x >= 0 for x in an)):
             raise AnalysisError(f"{getattr(fn, '_qual', fn.name)}: argnums `{short(argnums)}` is not a position or a tuple of positions (unrecognised idiom)")
         nums = list(an) if isinstance(an, (tuple, list)) else [an]
         try:
-            has_aux = bool(ast.literal_eval(_literal_of(mi, fn, kw["has_aux"]))) if "has_aux" in kw else False
+            has_aux = bool(ast.literal_eval(_literal_of(tmi, fn, kw["has_aux"]))) if "has_aux" in kw else False
         except Exception:
             raise AnalysisError(f"{getattr(fn, '_qual', fn.name)}: non-literal has_aux `{short(kw['has_aux'])}` (unrecognised idiom)")
         loss = tcall.args[0] if tcall.args else kw.get("f")
@@ -176,8 +199,36 @@ def grad_sites(repo: Repo, fn, mi):
                 diff.append(n.args[k])
         site = {"app": n, "transform": tcall, "kind": kind, "argnums": nums, "tuple": isinstance(an, (tuple, list)), "has_aux": has_aux, "loss": loss, "diff": diff,
                 "value_and": kind.endswith("value_and_grad")}
-        out.append(_through_wrapper(repo, fn, mi, site))
+        out.append(_through_wrapper(repo, fn, tmi, site))
     return out
+
+
+def _module_level_transform(repo, mi, fn, f):
+    """(module, `nnx.value_and_grad(L, ...)` call) when the called name ``f`` denotes a gradient transform that is bound by the only
+    module-level assignment to that name (in this module or in the one it is imported from) and is not shadowed inside ``fn``."""
+    root = f
+    while isinstance(root, ast.Attribute):
+        root = root.value
+    if not isinstance(root, ast.Name):
+        return None
+    if any((isinstance(x, ast.arg) and x.arg == root.id) or (isinstance(x, ast.Name) and x.id == root.id and isinstance(x.ctx, (ast.Store, ast.Del))) for x in ast.walk(fn)):
+        return None
+    try:
+        r = repo.resolve_expr(mi, f)
+        if not (r and r.startswith(repo.PKG + ".") and repo.has(r)):
+            return None
+        m2, node = repo.lookup(r)
+    except Exception:
+        return None
+    if not (isinstance(node, (ast.Assign, ast.AnnAssign)) and isinstance(node.value, ast.Call) and isinstance(node.value.func, (ast.Name, ast.Attribute))):
+        return None
+    if repo.resolve_expr(m2, node.value.func) not in GRAD_FUNCS:
+        return None
+    name = r.rsplit(".", 1)[1]
+    n_stores = sum(1 for x in ast.walk(m2.tree) if isinstance(x, ast.Name) and x.id == name and isinstance(x.ctx, (ast.Store, ast.Del)))
+    if n_stores != 1 or getattr(node, "_parent", None) is not m2.tree:
+        return None
+    return m2, node.value
 
 
 def _literal_of(mi, fn, e):
@@ -277,6 +328,8 @@ def _grad_targets(site, stmt):
         if site["value_and"]:
             if isinstance(t, ast.Tuple) and len(t.elts) == 2:
                 g = t.elts[1]
+            elif isinstance(t, ast.Name):
+                return "whole-name", [t.id]  # `res = ...; value, grads = res`: the unpacking statement is looked up by the caller
             else:
                 return None, None
         else:
@@ -292,6 +345,21 @@ def _grad_targets(site, stmt):
     return None, None
 
 
+def _single_unpack(res, fn, stmt, name):
+    """The one statement `<targets> = name` that reads the value ``stmt`` binds to ``name`` (reached by this definition only); None otherwise."""
+    scope_cfg = res.cfg_of(_enclosing_fn(stmt, fn))
+    try:
+        snode = scope_cfg.node_of(stmt).id
+    except KeyError:
+        return None
+    readers = [nd for nd in scope_cfg.nodes if nd.ast is not None and nd.kind not in ("entry", "exit") and name in nd.uses and any(d_.node == snode for d_ in scope_cfg.defs_of(nd.id, name))]
+    unpacks = [nd for nd in readers if nd.kind == "stmt" and isinstance(nd.ast, ast.Assign) and isinstance(nd.ast.value, ast.Name) and nd.ast.value.id == name
+               and [d_.node for d_ in scope_cfg.defs_of(nd.id, name)] == [snode]]
+    if len(unpacks) != 1 or len(readers) != 1 or len(unpacks[0].ast.targets) != 1:
+        return None
+    return unpacks[0].ast
+
+
 def _enclosing_fn(node, top):
     p = getattr(node, "_parent", None)
     while p is not None and p is not top:
@@ -301,9 +369,71 @@ def _enclosing_fn(node, top):
     return top
 
 
-def _gradient_uses(res, fn, gname, site_stmt):
+TREE_MAPS = ("jax.tree.map", "jax.tree_util.tree_map", "jax.tree_map", "optax.tree_utils.tree_map", "optax.tree.map")
+SELECTS = ("jax.numpy.where", "jax.lax.select", "numpy.where")
+ZEROS = ("jax.numpy.zeros_like", "jax.numpy.zeros", "numpy.zeros_like", "numpy.zeros")
+_LEAF = "leaf__of__gradient"
+
+
+def _leaf_class(repo, mi, e):
+    """What a leaf-wise expression makes of one leaf of the gradient (the name _LEAF):
+    ('id',) the leaf itself | ('zero',) a zero array whatever the leaf is | ('gate', test, zero_when) the leaf when `test` != zero_when, zeros
+    otherwise, with a `test` that does not look at the leaf (one switch for the whole tree) | ('other',) anything else."""
+    if isinstance(e, ast.Name) and e.id == _LEAF:
+        return ("id",)
+    if isinstance(e, ast.Constant) and not isinstance(e.value, (bool, str)) and isinstance(e.value, (int, float)) and e.value == 0:
+        return ("zero",)
+    if isinstance(e, ast.Call) and isinstance(e.func, (ast.Name, ast.Attribute)) and not e.keywords and not any(isinstance(a, ast.Starred) for a in e.args):
+        fq = repo.resolve_expr(mi, e.func)
+        if fq in ZEROS and e.args:
+            return ("zero",)
+        if fq in SELECTS and len(e.args) == 3:
+            return _select_class(repo, mi, e.args[0], e.args[1], e.args[2])
+    if isinstance(e, ast.IfExp):
+        return _select_class(repo, mi, e.test, e.body, e.orelse)
+    if isinstance(e, ast.BinOp) and isinstance(e.op, ast.Mult):
+        a, b = _leaf_class(repo, mi, e.left), _leaf_class(repo, mi, e.right)
+        if ("zero",) in (a, b) and all(x[0] in ("id", "zero") for x in (a, b)):
+            return ("zero",)
+    return ("other",)
+
+
+def _select_class(repo, mi, test, a, b):
+    ka, kb = _leaf_class(repo, mi, a), _leaf_class(repo, mi, b)
+    if isinstance(test, ast.Constant) and isinstance(test.value, bool):
+        return ka if test.value else kb
+    if ka == kb and ka[0] in ("id", "zero"):
+        return ka
+    if {ka[0], kb[0]} == {"id", "zero"} and not any(isinstance(x, ast.Name) and x.id == _LEAF for x in ast.walk(test)):
+        return ("gate", test, ka[0] == "zero")
+    return ("other",)
+
+
+def _leafwise_of_gradient(repo, mi, cfg, node, value, held):
+    """`jax.tree.map(F, .., g, ..)` with the tracked gradient ``g`` as one of the trees: the class of F's result for a leaf of g (see
+    _leaf_class); None when ``value`` is not such a tree map or F cannot be read."""
+    from ..sem import leaf_application
+    if not (isinstance(value, ast.Call) and isinstance(value.func, (ast.Name, ast.Attribute)) and repo.resolve_expr(mi, value.func) in TREE_MAPS):
+        return None
+    if value.keywords or any(isinstance(a, ast.Starred) for a in value.args) or len(value.args) < 2:
+        return None
+    trees = list(value.args[1:])
+    pos = [i for i, t in enumerate(trees) if isinstance(t, ast.Name) and t.id in held]
+    if len(pos) != 1 or any(isinstance(x, ast.Name) and x.id in held for i, t in enumerate(trees) if i != pos[0] for x in ast.walk(t)):
+        return None
+    trees[pos[0]] = ast.Name(id=_LEAF, ctx=ast.Load())
+    try:
+        leaf = leaf_application(repo, mi, value.args[0], trees, cfg, node)
+    except AnalysisError:
+        return None
+    return _leaf_class(repo, mi, leaf)
+
+
+def _gradient_uses(res, fn, gname, site_stmt, repo=None, mi=None):
     """What happens to the gradient that ``site_stmt`` binds to ``gname``, by reaching definitions: (`X.update(m, g)` calls that apply it,
-    other statements that read it).  Plain copies `h = g` are followed."""
+    other statements that read it, leaf-wise switches it passes on its way).  Plain copies `h = g` and leaf-wise identities are followed; a
+    leaf-wise switch `h = tree.map(lambda x: where(c, x, 0), g)` (the gradient or zeros, decided by one test for the whole tree) is followed
+    and recorded as (statement, test, zero_when)."""
     scope = _enclosing_fn(site_stmt, fn)
     cfg = res.cfg_of(scope)
     try:
@@ -312,7 +442,7 @@ def _gradient_uses(res, fn, gname, site_stmt):
         snode = None
     tracked = {(snode, gname)}
     while True:
-        ups, other, more = [], [], set()
+        ups, other, more, gates = [], [], set(), []
         for node in cfg.nodes:
             if node.ast is None or node.kind in ("entry", "exit"):
                 continue
@@ -326,6 +456,16 @@ def _gradient_uses(res, fn, gname, site_stmt):
             if isinstance(s, ast.Assign) and len(s.targets) == 1 and isinstance(s.targets[0], ast.Name) and isinstance(s.value, ast.Name) and s.value.id in held:
                 more.add((node.id, s.targets[0].id))
                 continue
+            if repo is not None and isinstance(s, ast.Assign) and len(s.targets) == 1 and isinstance(s.targets[0], ast.Name) \
+                    and all(len(cfg.defs_of(node.id, nm)) == 1 for nm in held):
+                k = _leafwise_of_gradient(repo, mi, cfg, node.id, s.value, held)
+                if k is not None and k[0] == "id":
+                    more.add((node.id, s.targets[0].id))
+                    continue
+                if k is not None and k[0] in ("gate", "zero"):
+                    more.add((node.id, s.targets[0].id))
+                    gates.append((s, k[1] if k[0] == "gate" else None, k[2] if k[0] == "gate" else None))
+                    continue
             found = [c for c in ast.walk(s) if isinstance(c, ast.Call) and isinstance(c.func, ast.Attribute) and c.func.attr == "update" and len(c.args) == 2
                      and not any(isinstance(a, ast.Starred) for a in c.args) and isinstance(c.args[1], ast.Name) and c.args[1].id in held]
             if found:
@@ -333,7 +473,7 @@ def _gradient_uses(res, fn, gname, site_stmt):
             else:
                 other.append(s)
         if more <= tracked:
-            return ups, other
+            return ups, other, gates
         tracked |= more
 
 
@@ -351,6 +491,25 @@ def _skipping_path(cfg, a, upd_nodes):
                 for k, v in cfg._lits(t.test, lab, b):
                     assume[k] = v
     return cfg.paths_avoiding(a, cfg.exit, avoid, feasible=True, assume=assume)
+
+
+def _gate_reason(res, fn, gate, gname, d) -> str:
+    stmt, test, zero_when = gate
+    if test is None:
+        return (f"`{short(stmt, 70)}` replaces every leaf of the gradient by zeros: the update runs without the gradient, `{short(d, 30)}` is not trained by it "
+                f"(only the optimizer state - step count, moments - advances)")
+    shown = short(test, 50)
+    if isinstance(test, ast.Name):
+        cfg = res.cfg_of(_enclosing_fn(stmt, fn))
+        try:
+            ds = cfg.defs_of(cfg.node_of(stmt).id, test.id)
+        except KeyError:
+            ds = []
+        if len(ds) == 1 and ds[0].kind == "assign" and ds[0].value is not None:
+            shown = f"{test.id} = {short(ds[0].value, 60)}"
+    return (f"`{short(stmt, 70)}` hands the update zeros instead of the gradient whenever `{shown}` is {'true' if zero_when else 'false'}: in that world a "
+            f"non-zero gradient w.r.t. `{short(d, 30)}` is discarded - the component is not trained by it - while the update still runs, so the optimizer "
+            f"state (step count, moments) advances and a stateful optimizer moves the parameters without a gradient")
 
 
 _DISTINCT_KINDS = ("param", "clone", "obj", "param|clone")
@@ -540,6 +699,261 @@ def _handed_elsewhere(repo, res, eff, q, fn, mi, paths):
     return out
 
 
+def _call_is(repo, mi, e, *quals) -> bool:
+    return isinstance(e, ast.Call) and isinstance(e.func, (ast.Name, ast.Attribute)) and repo.resolve_expr(mi, e.func) in quals
+
+
+def _live_state_of(repo, mi, cfg, at, s, depth=0):
+    """(X, node) when the state expression ``s`` (evaluated at CFG node ``at``) is the *live* state of module X: `nnx.state(X, ..)`, the
+    state half of `nnx.split(X, ..)`, a name bound once to one of these.  The returned State holds X's own Variable objects (flax nnx; any
+    `tree.map` over it makes new ones and is therefore not read as live)."""
+    if depth > 4:
+        return None
+    if _call_is(repo, mi, s, "flax.nnx.state") and s.args and not isinstance(s.args[0], ast.Starred):
+        return s.args[0], at
+    if isinstance(s, ast.Subscript) and isinstance(s.slice, ast.Constant) and s.slice.value == 1 and _call_is(repo, mi, s.value, "flax.nnx.split") \
+            and len(s.value.args) == 1 and not isinstance(s.value.args[0], ast.Starred):
+        return s.value.args[0], at
+    if isinstance(s, ast.Name):
+        ds = cfg.defs_of(at, s.id)
+        if len(ds) == 1 and ds[0].kind == "assign" and ds[0].value is not None:
+            return _live_state_of(repo, mi, cfg, ds[0].node, ds[0].value, depth + 1)
+        if len(ds) == 1 and ds[0].kind == "unpack" and ds[0].path == (1,) and _call_is(repo, mi, ds[0].value, "flax.nnx.split") \
+                and len(ds[0].value.args) == 1 and not isinstance(ds[0].value.args[0], ast.Starred):
+            return ds[0].value.args[0], ds[0].node
+    return None
+
+
+def _merge_of_live_state(repo, mi, cfg, at, e, depth=0):
+    """(X, node) when the module expression ``e`` is `nnx.merge(<graphdef>, <live state of X>)` without `copy=True` (directly or through a name
+    bound once): the merged module is a new object built around X's own Variables - it shares its parameters with X."""
+    if depth > 4:
+        return None
+    if _call_is(repo, mi, e, "flax.nnx.merge"):
+        kw = {k.arg: k.value for k in e.keywords}
+        if any(k is None for k in kw) or any(isinstance(a, ast.Starred) for a in e.args):
+            return None
+        if "copy" in kw and not (isinstance(kw["copy"], ast.Constant) and kw["copy"].value is False):
+            return None
+        for st in e.args[1:]:
+            src = _live_state_of(repo, mi, cfg, at, st)
+            if src is not None:
+                return src
+        return None
+    if isinstance(e, ast.Name):
+        ds = cfg.defs_of(at, e.id)
+        if len(ds) == 1 and ds[0].kind == "assign" and ds[0].value is not None:
+            return _merge_of_live_state(repo, mi, cfg, ds[0].node, ds[0].value, depth + 1)
+    return None
+
+
+def _storage_ident(repo, idn, mi, cfg, qual, ident):
+    """The identity whose parameters the object uses: a call result that is `nnx.merge(<graphdef>, <live state of X>)` stands for X."""
+    if isinstance(ident, tuple) and ident and ident[0] == "alt":
+        from ..identity import _alt
+        return _alt({_storage_ident(repo, idn, mi, cfg, qual, m) for m in ident[1]})
+    if isinstance(ident, tuple) and len(ident) == 3 and ident[0] == "call" and ident[1] == qual and isinstance(ident[2], int) and ident[2] < len(cfg.nodes):
+        st = cfg.nodes[ident[2]].ast
+        if isinstance(st, ast.Assign) and len(st.targets) == 1 and isinstance(st.targets[0], ast.Name):
+            src = _merge_of_live_state(repo, mi, cfg, ident[2], st.value)
+            if src is not None:
+                return _obj_id(idn, src[0], mi, cfg, src[1], qual)
+    return ident
+
+
+def _ident_path(i):
+    """('param', q, name) / attributes of it -> (name, attrs); None for anything else."""
+    attrs = []
+    while isinstance(i, tuple) and i and i[0] == "attr" and isinstance(i[2], str):
+        attrs.append(i[2])
+        i = i[1]
+    if isinstance(i, tuple) and i and i[0] == "param":
+        return i[2], tuple(attrs[::-1])
+    return None
+
+
+def _overlaps(p, w) -> bool:
+    return p is not None and p[0] == w[0] and (p[1] == w[1][:len(p[1])] or w[1] == p[1][:len(w[1])])
+
+
+def shared_storage_installed(ck, repo, res, eff, idn):
+    """R8: attribute stores that install, as a component of one object, (a module built around) the parameters of another component."""
+    transparent = repo.transparent_helpers()
+    for qual, fn, mi in repo.all_functions():
+        if "<locals>" in qual or qual in transparent:
+            continue
+        pn = param_names(fn)
+        if isinstance(getattr(fn, "_parent", None), ast.ClassDef) and pn and pn[0] in ("self", "cls"):
+            continue  # a constructor / method that stores into its own object builds a container; containers are read by R5 through their fields
+        stores = [(n, n.targets[0]) for n in ast.walk(fn) if isinstance(n, ast.Assign) and len(n.targets) == 1 and isinstance(n.targets[0], ast.Attribute)
+                  and _enclosing_fn(n, fn) is fn]
+        if not stores:
+            continue
+        cfg = res.cfg_of(fn)
+        written = None
+        for st, tg in stores:
+            try:
+                at = cfg.node_of(st).id
+            except KeyError:
+                continue
+            src = _merge_of_live_state(repo, mi, cfg, at, st.value)
+            if src is not None:
+                how, x_e, x_at = "shares", src[0], src[1]
+            elif expr_path(st.value) is not None:
+                how, x_e, x_at = "is", st.value, at
+            else:
+                continue
+            t_id = idn.of(tg, mi, cfg, at, qual)
+            x_id = _obj_id(idn, x_e, mi, cfg, x_at, qual)
+            verdict = _cmp_ident(t_id, x_id)
+            key = f"{_p(expr_path(tg)) if expr_path(tg) else short(tg, 30)}<-{short(x_e, 30)}"
+            if verdict == "same":
+                if how == "shares":
+                    ck.ob("R8-no-shared-storage", qual, key, True, f"`{short(st, 70)}` rebuilds {show(t_id)} around its own parameters", "", loc(mi, st))
+                continue
+            if written is None:
+                written = {w for w in eff.summary(qual) if not _looks_optimizer(w, fn)}
+            tp, xp = _ident_path(t_id), _ident_path(x_id)
+            hit = sorted(w for w in written if _overlaps(tp, w) or _overlaps(xp, w))
+            if tp is None or not any(w[0] == tp[0] for w in written):
+                continue  # the slot belongs to an object no part of which this routine writes (a record, a logger, a statistics holder): not a component
+            if how == "is" and not hit:
+                continue  # a reference stored into a record; nothing says that it is a module that some update writes
+            if verdict == "unknown" or has_base(t_id, x_id) or has_base(x_id, t_id) or not hit:
+                ck.incomplete.append(f"{qual}: `{short(st, 70)}` installs {'a module built around the parameters of' if how == 'shares' else ''} {show(x_id)} as {show(t_id)}; "
+                                     f"whether the two are different components one of which is trained cannot be decided (unrecognised form)")
+                continue
+            # is the store still in force at the exit (not overwritten), and - for a plain reference - is the source still where it was (not moved on)?
+            later_t = [n for n, t2 in stores if n is not st and expr_path(t2) == expr_path(tg)]
+            later_x = [n for n, t2 in stores if n is not st and how == "is" and expr_path(t2) == expr_path(x_e)]
+            def _after(n_):
+                try:
+                    b = cfg.node_of(n_).id
+                except KeyError:
+                    return "maybe"
+                if b in nx_descendants(cfg, at):
+                    return "always" if cfg.postdominates(b, at) else "maybe"
+                return "never"
+            states = {_after(n_) for n_ in later_t + later_x}
+            if "always" in states:
+                continue  # the installed reference is replaced / the source slot is given another object before the routine ends: moved, not shared
+            if "maybe" in states:
+                ck.incomplete.append(f"{qual}: `{short(st, 70)}` is overwritten on some paths only (unrecognised form)")
+                continue
+            sites_txt = ", ".join(_p(w) for w in hit[:3])
+            ck.ob("R8-no-shared-storage", qual, key, False, f"`{short(st, 80)}`",
+                  (f"{show(t_id)} becomes a module built around the Variables of {show(x_id)} (nnx.merge of a live nnx.state does not copy)" if how == "shares" else
+                   f"{show(t_id)} and {show(x_id)} become one object") +
+                  f": the two components share their parameters from then on, and this routine writes {sites_txt} - that update also changes the other component, "
+                  f"which is outside the trainee set of the update", loc(mi, st))
+
+
+def _resolve_once(cfg, at, e, depth=0):
+    """The expression a name stands for (one reaching plain assignment, followed a few steps); the expression itself otherwise."""
+    while isinstance(e, ast.Name) and depth < 4:
+        ds = cfg.defs_of(at, e.id)
+        if not (len(ds) == 1 and ds[0].kind == "assign" and ds[0].value is not None):
+            break
+        e, at, depth = ds[0].value, ds[0].node, depth + 1
+    return e, at
+
+
+def _drop_last_remainder_slices(cfg, at, e):
+    """Slices `[.., :-r, ..]` inside ``e`` whose bound is the negation of a remainder `a % b` (directly or through names): (subscript, names
+    and spelling by which a guard could mention the bound).  `x[:-r]` drops the last r elements for r > 0 and EVERYTHING for r == 0."""
+    out = []
+    for sub in ast.walk(e):
+        if not isinstance(sub, ast.Subscript):
+            continue
+        dims = sub.slice.elts if isinstance(sub.slice, ast.Tuple) else [sub.slice]
+        for d in dims:
+            if not (isinstance(d, ast.Slice) and d.lower is None and d.upper is not None and d.step is None):
+                continue
+            mention = {x.id for x in ast.walk(d.upper) if isinstance(x, ast.Name)}
+            u, u_at = _resolve_once(cfg, at, d.upper)
+            if not (isinstance(u, ast.UnaryOp) and isinstance(u.op, ast.USub)):
+                continue
+            mention |= {x.id for x in ast.walk(u.operand) if isinstance(x, ast.Name)} if isinstance(u.operand, ast.Name) else set()
+            v, _ = _resolve_once(cfg, u_at, u.operand)
+            if isinstance(v, ast.BinOp) and isinstance(v.op, ast.Mod):
+                out.append((sub, mention, ast.unparse(v)))
+    return out
+
+
+def _depends_on(cfg, at, test, mention, rem) -> bool:
+    """Is the remainder (one of the names ``mention`` it goes by, or its spelling ``rem``) in the backward data slice of the test
+    (`flag = r != 0 ... if flag:`)?  Any dependence counts as a guard - the orientation of the test is not judged."""
+    work, seen = [(at, test)], set()
+    while work and len(seen) < 200:
+        n_at, e = work.pop()
+        if {x.id for x in ast.walk(e) if isinstance(x, ast.Name)} & mention or rem in ast.unparse(e):
+            return True
+        for x in ast.walk(e):
+            if isinstance(x, ast.Name) and isinstance(x.ctx, ast.Load):
+                for d in cfg.defs_of(n_at, x.id):
+                    if d.value is not None and (d.node, x.id) not in seen:
+                        seen.add((d.node, x.id))
+                        work.append((d.node, d.value))
+    return False
+
+
+def empty_batches(ck, repo, res, eff):
+    """R9: the data handed to an update routine is not emptied in the world where a remainder is zero."""
+    for qual, fn, mi in repo.all_functions():
+        if "<locals>" in qual or qual in repo.transparent_helpers():
+            continue
+        eff.summary(qual)
+        calls = [c for k, c, p_, op in eff.sites.get(qual, []) if k.startswith("call ") and k.split(" ", 1)[1] in TRAINEES and _enclosing_fn(c, fn) is fn]
+        if not calls:
+            continue
+        cfg = res.cfg_of(fn)
+        done = set()
+        for c in calls:
+            if id(c) in done:
+                continue
+            done.add(id(c))
+            try:
+                at = cfg.node_of(c).id
+            except KeyError:
+                continue
+            # backwards over the definitions the arguments are computed from
+            work = [(at, a) for a in list(c.args) + [k.value for k in c.keywords]]
+            seen, depth = set(), 0
+            while work and depth < 400:
+                depth += 1
+                n_at, e = work.pop()
+                for sub, mention, rem in _drop_last_remainder_slices(cfg, n_at, e):
+                    if (id(sub), n_at) in seen:
+                        continue
+                    seen.add((id(sub), n_at))
+                    guarded = False
+                    for b, _lab in cfg.control_deps(n_at):
+                        t = getattr(cfg.nodes[b].ast, "test", None)
+                        if t is not None and _depends_on(cfg, b, t, mention, rem):
+                            guarded = True
+                    child, par = sub, getattr(sub, "_parent", None)
+                    while par is not None and not isinstance(par, ast.stmt):
+                        # `x[:-r] if r else x`: the conditional expression is the guard
+                        if isinstance(par, ast.IfExp) and child is not par.test and _depends_on(cfg, n_at, par.test, mention, rem):
+                            guarded = True
+                        child, par = par, getattr(par, "_parent", None)
+                    callee = next(k.split(" ", 1)[1] for k, c2, p_, op in eff.sites[qual] if c2 is c and k.startswith("call "))
+                    ck.ob("R9-batches-not-emptied", qual, f"{callee.rsplit('.', 1)[1]}:{short(sub, 40)}", guarded, f"`{short(sub, 60)}` feeds `{short(c, 50)}`",
+                          "" if guarded else f"the bound of the slice is minus the remainder `{rem}`; in the world where the remainder is 0 (an exact multiple) the slice is `[:0]` - empty, not "
+                          f"complete - and nothing guards that world: {callee.rsplit('.', 1)[1]} receives no data, performs no optimiser step and leaves its trainee unchanged", loc(mi, sub))
+                for x in ast.walk(e):
+                    if isinstance(x, ast.Name) and isinstance(x.ctx, ast.Load):
+                        for d in cfg.defs_of(n_at, x.id):
+                            if d.kind in ("assign", "unpack", "aug") and d.value is not None and (d.node, x.id) not in seen:
+                                seen.add((d.node, x.id))
+                                work.append((d.node, d.value))
+
+
+def nx_descendants(cfg, a):
+    import networkx as nx
+    return nx.descendants(cfg.graph(), a)
+
+
 def run(ck, repo: Repo, tier: str):
     res = Resolver(repo)
     eff = Effects(repo, res)
@@ -553,7 +967,7 @@ def run(ck, repo: Repo, tier: str):
 
         def consumed(qual, fn, mi, gname, d, stmt, app_at, what, where, r1_key, r1_text):
             """R4 (applied at all, on every normal path) and R1 (applied to the object it was taken with respect to) for one gradient."""
-            ups, other = _gradient_uses(res, fn, gname, stmt)
+            ups, other, gates = _gradient_uses(res, fn, gname, stmt, repo, mi)
             if not ups and other:
                 # the gradient goes somewhere the rule does not follow (returned in a tuple, transformed, handed to a helper, a loop over
                 # (optimizer, module, gradient) triples ...): neither applied nor lost as far as this analysis can tell
@@ -564,6 +978,10 @@ def run(ck, repo: Repo, tier: str):
                   "" if ups else "the gradient is computed but never read again, so it is never applied: the trained component does not change", where)
             if not ups:
                 return
+            # R7: what the update receives is the gradient, not a switched copy of it (the switch is a branch written as data: in the world
+            # where it selects zeros the update runs without the gradient)
+            ck.ob("R7-gradient-intact", qual, f"intact:{short(d, 30)}", not gates, f"gradient `{gname}` {what} on its way to `{short(ups[0], 60)}`",
+                  "" if not gates else _gate_reason(res, fn, gates[0], gname, d), loc(mi, gates[0][0]) if gates else where)
             for u in ups:
                 verdict, got_s, want_s = _same_obj(res, idn, fn, qual, u.args[0], u, d, app_at)
                 if verdict == "unknown":
@@ -609,6 +1027,17 @@ def run(ck, repo: Repo, tier: str):
                     returned[qual] = (site, d.id)
                     continue
                 bound_at = [stmt] * len(site["diff"])
+                if kind == "whole-name":
+                    un = _single_unpack(res, fn, stmt, names[0])
+                    tg = un.targets[0] if un is not None else None
+                    g_ = tg.elts[1] if isinstance(tg, (ast.Tuple, ast.List)) and len(tg.elts) == 2 else None
+                    if isinstance(g_, ast.Name) and not site["tuple"]:
+                        names, bound_at = [g_.id], [un]
+                    elif isinstance(g_, (ast.Tuple, ast.List)) and site["tuple"] and len(g_.elts) == len(site["diff"]) and all(isinstance(x, ast.Name) for x in g_.elts):
+                        names, bound_at = [x.id for x in g_.elts], [un] * len(g_.elts)
+                    else:
+                        ck.incomplete.append(f"{qual}: the result `{names[0]}` of `{short(site['app'], 50)}` is not unpacked by one statement into (value, gradient) (unrecognised form)")
+                        continue
                 if kind == "tuple-name":
                     # the statement that unpacks the tuple of gradients (reached by this definition only) binds the element names
                     scope_cfg = res.cfg_of(_enclosing_fn(stmt, fn))
@@ -800,6 +1229,8 @@ def run(ck, repo: Repo, tier: str):
                             if expr_path(a) is None:
                                 continue
                             ident = idn.of(a, mi, cfg, at, qual)
+                            # a module merged around the live state of X holds X's Variables: for storage it is X
+                            ident = _storage_ident(repo, idn, mi, cfg, qual, ident)
                             if ident[0] in ("global", "expr", "value", "call", "aug", "for", "unpack", "phi", "deep") or _mentions(ident, ("deep", "expr")):
                                 continue  # counters, buffers built elsewhere, expressions the identity analysis does not read: not module identities
                             for leaf in idn.leaves(ident, mi, cfg, qual):
@@ -850,6 +1281,8 @@ def run(ck, repo: Repo, tier: str):
         ck.floor("effect-free-functions", n_free, 40)
     ck.guard(_section_6)
     ck.guard(stateful_objects_in_lax_carry, ck, repo)
+    ck.guard(shared_storage_installed, ck, repo, res, eff, idn)
+    ck.guard(empty_batches, ck, repo, res, eff)
 
 
 LAX_CARRY = {"jax.lax.fori_loop": (3, "init_val"), "jax.lax.while_loop": (2, "init_val"), "jax.lax.scan": (1, "init"), "jax.lax.cond": (3, None), "jax.lax.switch": (2, None)}
@@ -1162,6 +1595,31 @@ MUTANTS = [
      "replace": "                actor_loss_value, actor_grads = nnx.value_and_grad(\n                    deterministic_policy_gradient_loss, argnums=2\n                )(q, batch.observation, policy)\n                q_optimizer.update(policy, actor_grads)\n"},
     {"id": "c05-loss-raw-value-store", "file": "rl_blox/blox/losses.py", "rule": "R3", "find": "    q_next = jax.lax.stop_gradient(q_target(next_obs_act).squeeze())\n    q_target_value = reward + (1 - terminated) * gamma * q_next\n    return _mse_clipped_double_q_loss(q_target_value, q, action, observation)\n\n\ndef _mse",
      "replace": "    q_next = jax.lax.stop_gradient(q_target(next_obs_act).squeeze())\n    q_target.q1.scale.value = jnp.ones(())\n    q_target_value = reward + (1 - terminated) * gamma * q_next\n    return _mse_clipped_double_q_loss(q_target_value, q, action, observation)\n\n\ndef _mse"},
+    # ---- R7: the gradient is switched to zeros on its way to the update (a skip written as data)
+    {"id": "c05-sale-gradient-gated-by-loss-check", "file": "rl_blox/blox/embedding/sale.py", "rule": "R7", "find": "    embedding_optimizer.update(embedding, grads)",
+     "replace": "    usable = jnp.isfinite(embedding_loss_value)\n    grads = jax.tree_util.tree_map(\n        lambda x: jax.lax.select(usable, x, jnp.zeros_like(x)), grads\n    )\n    embedding_optimizer.update(embedding, grads)"},
+    {"id": "c05-sac-gradient-zeroed-when-flag", "file": _A + "sac.py", "rule": "R7", "find": "    policy_optimizer.update(policy, grads)\n    return loss",
+     "replace": "    skip = jnp.isnan(loss)\n    applied = jax.tree.map(lambda z: jnp.where(skip, 0.0, z), grads)\n    policy_optimizer.update(policy, applied)\n    return loss"},
+    {"id": "c05-ddpg-gradient-times-zero", "file": _A + "ddpg.py", "rule": "R7", "find": "    policy_optimizer.update(policy, grads)\n    return actor_loss_value",
+     "replace": "    grads = jax.tree.map(lambda g: g * 0.0, grads)\n    policy_optimizer.update(policy, grads)\n    return actor_loss_value"},
+    # ---- R8 / R5: a component built around (or being) another component's parameters
+    {"id": "c05-td7-fixed-encoder-is-the-trained-one", "file": _A + "td7.py", "rule": "R8", "find": "        hard_target_net_update(embedding, policy.embedding)\n", "replace": "        policy.embedding = embedding\n"},
+    {"id": "c05-td7-fixed-encoder-merged-from-split", "file": _A + "td7.py", "rule": "R8", "find": "        hard_target_net_update(embedding, policy.embedding)\n",
+     "replace": "        encoder_def, encoder_vars = nnx.split(embedding)\n        policy.embedding = nnx.merge(encoder_def, encoder_vars)\n"},
+    {"id": "c05-td7-initial-fixed-encoder-merged-not-cloned", "file": _A + "td7.py", "rule": "R5", "find": "    fixed_embedding = nnx.clone(embedding)\n",
+     "replace": "    fixed_embedding = nnx.merge(nnx.graphdef(embedding), nnx.state(embedding))\n"},
+    # ---- gradient transform bound at module level, with the wrong position
+    {"id": "c05-ddpg-module-level-transform-wrong-argnum", "file": _A + "ddpg.py", "rule": "R1", "edits": [
+        ("from .dqn import train_step_with_loss\n", "from .dqn import train_step_with_loss\n\n_actor_loss_and_grad = nnx.value_and_grad(\n    deterministic_policy_gradient_loss, argnums=0\n)\n"),
+        ("    actor_loss_value, grads = nnx.value_and_grad(\n        deterministic_policy_gradient_loss, argnums=2\n    )(q, observation, policy)\n    policy_optimizer.update(policy, grads)", "    actor_loss_value, grads = _actor_loss_and_grad(q, observation, policy)\n    policy_optimizer.update(policy, grads)")]},
+    # ---- R9: the epoch's index array is emptied when the bootstrap size is an exact multiple of the batch size
+    {"id": "c05-ensemble-unguarded-negative-remainder", "file": "rl_blox/blox/probabilistic_ensemble.py", "rule": "R9", "find": "        remaining = -(bootstrap_indices.shape[1] % batch_size)\n        if remaining:\n            shuffled_indices = shuffled_indices[:, :remaining]\n",
+     "replace": "        n_incomplete = bootstrap_indices.shape[1] % batch_size\n        cut = -n_incomplete\n        shuffled_indices = shuffled_indices[:, :cut]\n"},
+    {"id": "c05-ensemble-unguarded-cut-in-helper", "file": "rl_blox/blox/probabilistic_ensemble.py", "rule": "R9", "edits": [
+        ("def train_ensemble(", "def _whole_batches_only(idx, size):\n    return idx[:, : -(idx.shape[1] % size)]\n\n\ndef train_ensemble("),
+        ("        remaining = -(bootstrap_indices.shape[1] % batch_size)\n        if remaining:\n            shuffled_indices = shuffled_indices[:, :remaining]\n", "        shuffled_indices = _whole_batches_only(shuffled_indices, batch_size)\n")]},
+    {"id": "c05-td7-fixed-encoder-merged-through-locals", "file": _A + "td7.py", "rule": "R8", "find": "        hard_target_net_update(embedding, policy.embedding)\n",
+     "replace": "        current = nnx.state(embedding)\n        snapshot = nnx.merge(nnx.graphdef(embedding), current)\n        policy.embedding = snapshot\n"},
 ]
 BENIGN = [
     {"id": "c05-b-dqn-inline-gradfn", "file": _A + "dqn.py", "find": "    grad_fn = nnx.value_and_grad(loss, argnums=0, has_aux=True)\n    value, grad = grad_fn(q, *args, **kwargs)", "replace": "    value, grad = nnx.value_and_grad(loss, argnums=0, has_aux=True)(\n        q, *args, **kwargs\n    )"},
@@ -1190,4 +1648,40 @@ BENIGN = [
     # loss closed over its other arguments (site read through the wrapper)
     {"id": "c05-b-sac-lambda-loss", "file": _A + "sac.py", "find": "    loss, grads = nnx.value_and_grad(sac_actor_loss, argnums=0)(\n        policy, q, alpha, action_key, observation\n    )",
      "replace": "    loss, grads = nnx.value_and_grad(\n        lambda p: sac_actor_loss(p, q, alpha, action_key, observation)\n    )(policy)"},
+    # ---- near R7: the gradient passes a leaf-wise identity / is read for a statistic before it is applied
+    {"id": "c05-b-sale-gradient-leafwise-identity", "file": "rl_blox/blox/embedding/sale.py", "find": "    embedding_optimizer.update(embedding, grads)",
+     "replace": "    grads = jax.tree_util.tree_map(lambda x: x, grads)\n    embedding_optimizer.update(embedding, grads)"},
+    {"id": "c05-b-sac-gradient-norm-read", "file": _A + "sac.py", "find": "    policy_optimizer.update(policy, grads)\n    return loss",
+     "replace": "    grad_norm = optax.global_norm(grads)\n    del grad_norm\n    policy_optimizer.update(policy, grads)\n    return loss"},
+    {"id": "c05-b-ddpg-where-with-equal-arms", "file": _A + "ddpg.py", "find": "    policy_optimizer.update(policy, grads)\n    return actor_loss_value",
+     "replace": "    g_applied = jax.tree.map(lambda g: g if True else jnp.zeros_like(g), grads)\n    policy_optimizer.update(policy, g_applied)\n    return actor_loss_value"},
+    # ---- near R8: copies (copy=True, mapped state, clone after handing the old object on) install nothing shared
+    {"id": "c05-b-td7-fixed-encoder-merged-with-copy", "file": _A + "td7.py", "find": "        hard_target_net_update(embedding, policy.embedding)\n",
+     "replace": "        policy.embedding = nnx.merge(\n            nnx.graphdef(embedding), nnx.state(embedding), copy=True\n        )\n"},
+    {"id": "c05-b-td7-fixed-encoder-merged-from-copied-state", "file": _A + "td7.py", "find": "        hard_target_net_update(embedding, policy.embedding)\n",
+     "replace": "        policy.embedding = nnx.merge(\n            nnx.graphdef(embedding), jax.tree.map(jnp.copy, nnx.state(embedding))\n        )\n"},
+    {"id": "c05-b-td7-rotate-then-clone", "file": _A + "td7.py", "find": "        hard_target_net_update(policy.embedding, policy_target.embedding)\n        hard_target_net_update(embedding, policy.embedding)\n",
+     "replace": "        policy_target.embedding = policy.embedding\n        policy.embedding = nnx.clone(embedding)\n"},
+    # ---- gradient transform bound once at module level
+    {"id": "c05-b-ddpg-module-level-transform", "file": _A + "ddpg.py", "edits": [
+        ("from .dqn import train_step_with_loss\n", "from .dqn import train_step_with_loss\n\n_actor_loss_and_grad = nnx.value_and_grad(\n    deterministic_policy_gradient_loss, argnums=2\n)\n"),
+        ("    actor_loss_value, grads = nnx.value_and_grad(\n        deterministic_policy_gradient_loss, argnums=2\n    )(q, observation, policy)\n    policy_optimizer.update(policy, grads)", "    actor_loss_value, grads = _actor_loss_and_grad(q, observation, policy)\n    policy_optimizer.update(policy, grads)")]},
+    # ---- near R9: the same cut under a test of the remainder / spelled with the length that is kept / with the `or None` idiom
+    {"id": "c05-b-ensemble-positive-remainder-guarded", "file": "rl_blox/blox/probabilistic_ensemble.py", "find": "        remaining = -(bootstrap_indices.shape[1] % batch_size)\n        if remaining:\n            shuffled_indices = shuffled_indices[:, :remaining]\n",
+     "replace": "        n_incomplete = bootstrap_indices.shape[1] % batch_size\n        if n_incomplete != 0:\n            shuffled_indices = shuffled_indices[:, :-n_incomplete]\n"},
+    {"id": "c05-b-ensemble-kept-length", "file": "rl_blox/blox/probabilistic_ensemble.py", "find": "        remaining = -(bootstrap_indices.shape[1] % batch_size)\n        if remaining:\n            shuffled_indices = shuffled_indices[:, :remaining]\n",
+     "replace": "        n_kept = bootstrap_indices.shape[1] - bootstrap_indices.shape[1] % batch_size\n        shuffled_indices = shuffled_indices[:, :n_kept]\n"},
+    {"id": "c05-b-ensemble-or-none-idiom", "file": "rl_blox/blox/probabilistic_ensemble.py", "find": "        remaining = -(bootstrap_indices.shape[1] % batch_size)\n        if remaining:\n            shuffled_indices = shuffled_indices[:, :remaining]\n",
+     "replace": "        n_incomplete = bootstrap_indices.shape[1] % batch_size\n        shuffled_indices = shuffled_indices[:, : -n_incomplete or None]\n"},
+    # the test of the remainder is a flag computed before the loop / a conditional expression
+    {"id": "c05-b-ensemble-guard-is-a-flag", "file": "rl_blox/blox/probabilistic_ensemble.py", "edits": [
+        ("    loss = jnp.inf\n    for t in range(1, n_epochs + 1):", "    n_left_over = bootstrap_indices.shape[1] % batch_size\n    has_left_over = n_left_over > 0\n    loss = jnp.inf\n    for t in range(1, n_epochs + 1):"),
+        ("        remaining = -(bootstrap_indices.shape[1] % batch_size)\n        if remaining:\n            shuffled_indices = shuffled_indices[:, :remaining]\n", "        if has_left_over:\n            shuffled_indices = shuffled_indices[:, :-n_left_over]\n")]},
+    {"id": "c05-b-ensemble-guard-is-a-conditional-expression", "file": "rl_blox/blox/probabilistic_ensemble.py", "find": "        remaining = -(bootstrap_indices.shape[1] % batch_size)\n        if remaining:\n            shuffled_indices = shuffled_indices[:, :remaining]\n",
+     "replace": "        n_left_over = bootstrap_indices.shape[1] % batch_size\n        shuffled_indices = (\n            shuffled_indices[:, :-n_left_over] if n_left_over else shuffled_indices\n        )\n"},
+    # a reference to a trained module kept in a record that is no component of anything trained
+    {"id": "c05-b-td7-critic-reference-in-statistics-record", "file": _A + "td7.py", "find": "        replay_buffer.reset_max_priority()\n", "replace": "        replay_buffer.reset_max_priority()\n        value_clipping_state.last_synchronised = critic\n"},
+    # (value, gradient) kept in one name and unpacked by the next statement
+    {"id": "c05-b-ddpg-result-unpacked-later", "file": _A + "ddpg.py", "find": "    actor_loss_value, grads = nnx.value_and_grad(\n        deterministic_policy_gradient_loss, argnums=2\n    )(q, observation, policy)\n",
+     "replace": "    value_and_gradient = nnx.value_and_grad(\n        deterministic_policy_gradient_loss, argnums=2\n    )(q, observation, policy)\n    actor_loss_value, grads = value_and_gradient\n"},
 ]
